@@ -41,6 +41,11 @@ impl<const N: usize> Read for StubReader<N> {
             return Ok(0);
         }
         let call = self.calls;
+        // Progress measure: one step needs at most 4 reads that make progress (1 + 3 continuation
+        // bytes) plus one that reports end of data. A loop that keeps polling a reader which has
+        // nothing more to give (a hang) trips this assertion with a replayable witness instead of
+        // only an unwinding failure.
+        assert!(call < 6, "the reader is polled again and again without progress: the step does not terminate");
         self.calls += 1;
         if call == self.fail_at {
             self.failed = true;
@@ -192,7 +197,7 @@ fn next_step(with_cap: bool, with_fault: bool) {
 macro_rules! step_harness {
     ($name:ident, $cap:expr, $fault:expr) => {
         #[kani::proof]
-        #[kani::unwind(6)]
+        #[kani::unwind(9)]
         #[kani::stub(core::str::validations::run_utf8_validation, stdlite::run_utf8_validation)]
         #[kani::stub(alloc::fmt::format, stdlite::format_stub)]
         fn $name() {
